@@ -105,6 +105,29 @@ fn case_inner(sink: &mut Sink, model: &mut Model, key: &KeyInfo, meta: &Metadata
     sink.oracle(same, "signature is not over the reference canonical JSON", &replay);
     sink.oracle(verify_accepts(meta, &key.key, &reference), "signature made over the reference canonical JSON is rejected", &replay);
     sink.stat(&format!("{}/{}", class, if same { "ref-equal" } else { "ref-differs" }));
+    // ... and nothing else verifies: a signature over any other rendering of the same content (the
+    // canonical text with its escape sequences left in place, the same with only the line feed undone,
+    // serde_json's compact or indented text, the reference text followed by a line feed) is a signature
+    // over other bytes - no reference implementation would accept it
+    {
+        let canonical = guarded({ let m = meta.clone(); move || m.to_bytes() }).ok().and_then(|r| r.ok()).unwrap_or_default();
+        let mut with_lf = reference.clone();
+        with_lf.push(b'\n');
+        let renderings: Vec<(&str, Vec<u8>)> = vec![
+            ("canonical text with escapes", canonical.clone()),
+            ("canonical text with only \\n undone", String::from_utf8_lossy(&canonical).replace("\\n", "\n").into_bytes()),
+            ("serde_json compact text", serde_json::to_vec(&j).unwrap_or_default()),
+            ("serde_json indented text", serde_json::to_vec_pretty(&j).unwrap_or_default()),
+            ("reference text plus a line feed", with_lf),
+        ];
+        for (what, text) in renderings {
+            if text == reference || text.is_empty() {
+                continue;
+            }
+            sink.stat(&format!("other-rendering/{}", what));
+            sink.oracle(!verify_accepts(meta, &key.key, &text), &format!("a signature made over another rendering of the content ({}) verifies", what), &replay);
+        }
+    }
     // the bytes the crate itself hands out for the metadata (`to_bytes`, on the wrapper and on the trait
     // object a builder is fed with) are one canonical JSON text, and signing its signable form is
     // signing the reference encoding
